@@ -124,9 +124,40 @@ def check_dedup_wrap(ctx, repo, rule):
                       'seam are never compared' % (nm, src(fin[0].value) if fin else '?'), construct='%s = %s' % (nm, src(fin[0].value) if fin else '?'))
 
 
+def check_seam(ctx, repo, rule):
+    """The RA rotation is accepted only if it keeps every point at least minSize from 0 and 360; a slice that cannot avoid the seam
+    spans the full circle.  (Two cooperating guards: dropping either one alone is harmless, dropping both loses points at the seam.)"""
+    f = repo.func(SG, 'chunks.rarange')
+    g = repo.func(SG, 'chunks.__init__')
+    ctx.cover(f, g)
+    acc = [n for n in walk_local(f.node) if isinstance(n, ast.If) and 'raRangeMin' in src(n.test)]
+    ctx.need(acc, 'chunks.rarange: acceptance test not found')
+    cmp1 = {src(c).replace(' ', '') for c in ast.walk(acc[0].test) if isinstance(c, ast.Compare)}
+    guard1 = {'raMin>minSize', 'raMax<360.0-minSize'} <= cmp1 or {'minSize<raMin', '360.0-minSize>raMax'} <= cmp1
+    emb = [n for n in walk_local(g.node) if isinstance(n, ast.If) and 'raRangeTmp >= 360.0' in src(n.test)]
+    ctx.need(emb, 'chunks.__init__: full-circle test not found')
+    cmp2 = {src(c).replace(' ', '') for c in ast.walk(emb[0].test) if isinstance(c, ast.Compare)}
+    guard2 = {'raMinTmp<=minSize/cosDecMin', 'raMaxTmp>=360.0-minSize/cosDecMin'} <= cmp2
+    ctx.check(rule, guard1 or guard2, f, acc[0],
+              'the RA seam is kept away from the data: rotation accepted only with a minSize clearance (%s) / slices that reach the seam span the full circle (%s)'
+              % (guard1, guard2),
+              msg='neither chunks.rarange (clearance raMin > minSize and raMax < 360 - minSize) nor chunks.__init__ (slice within minSize of 0/360 spans the '
+                  'full circle) keeps the RA seam away from the cells: points whose rotated RA falls just below 360 are skipped by assign()',
+              construct='seam guards: rarange=%s init=%s' % (guard1, guard2))
+
+
 def check_spherematch(ctx, repo):
     f = repo.func(SG, 'spherematch')
     fa = FA(f)
+    # the candidate loop: every candidate of the cell is compared with gcirc; no pre-filter this checker could judge
+    sepdef0 = assign_of(f.node, 'sep')
+    if sepdef0:
+        lp = next((a for a in ancestors(sepdef0[0]) if isinstance(a, ast.For)), None)
+        if lp is not None:
+            extra = [st for st in lp.body if isinstance(st, (ast.If, ast.Continue, ast.Break)) and 'sep' not in src(getattr(st, 'test', st))]
+            if extra or any(isinstance(x, (ast.Continue, ast.Break)) for st in lp.body for x in ast.walk(st)):
+                raise AnalysisError('C04: the candidate loop of spherematch skips candidates before their separation is computed (`%s`): whether that test is '
+                                    'a lower bound of the great-circle distance is geometry this checker cannot judge' % (src(extra[0].test)[:60] if extra and hasattr(extra[0], 'test') else 'continue/break'))
     # MARGIN
     asg = [c for c in walk_local(f.node) if isinstance(c, ast.Call) and isinstance(c.func, ast.Attribute) and c.func.attr == 'assign']
     cmp_ = [c for c in walk_local(f.node) if isinstance(c, ast.Compare) and src(c.left) == 'sep']
@@ -287,6 +318,13 @@ def check_fof_merge(ctx, repo):
         ctx.check('C05.ROOT', bool(root_loop), f, st, 'an earlier label is followed through mapGroups to its root before the minimum is taken',
                   msg='the earlier label `%s` enters the minimum without being followed to its root (`while mapGroups[x] != x`): a group spanning several chunks '
                       'in a fork-and-rejoin pattern is merged under the wrong label and split in two' % src(other), construct='root following before min')
+    # second pass runs whenever an earlier label was seen
+    sec = [st for st in walk_local(f.node) if isinstance(st, ast.Assign) and src(st.targets[0]) == 'l' and 'firstGroup[k]' in src(st.value)]
+    in_else = [st for st in sec if isinstance(st._parent, ast.If) and st in st._parent.orelse and src(st._parent.test).replace(' ', '') == 'minEarly==9*nPoints']
+    ok2 = len(in_else) == 1 and src(in_else[0].value) == 'chunkGroup.firstGroup[k]'
+    ctx.check('C05.ROOT', ok2, f, in_else[0] if in_else else f.node, 'the re-pointing pass runs for every group that met an earlier label',
+              msg='the re-pointing / path-compression pass is skipped for some groups that met an earlier label (`%s`): two provisional trees reaching one '
+                  'chunk are never merged' % (src(in_else[0].value) if in_else else 'not found'), construct='second pass entry')
     # second pass: path compression to minEarly
     comp = [x for x in walk_local(f.node) if isinstance(x, ast.While) and 'mapGroups[checkEarly] != checkEarly' in src(x.test) and any('tmpEarly' in src(y) for y in x.body)]
     ok = len(comp) == 1 and [src(y) for y in comp[0].body] == ['tmpEarly = mapGroups[checkEarly]', 'mapGroups[checkEarly] = minEarly', 'checkEarly = tmpEarly']
@@ -310,6 +348,20 @@ def check_full_scan(ctx, repo):
     ctx.check('C05.FULL-SCAN', ok, f, inner or f.node, 'every target is compared with all targets (range(nTargets)), earlier ones included',
               msg='the neighbour scan for target i visits `%s`: stale group tags of targets that were linked earlier are never repaired and a sparsely linked '
                   'chain splits' % (src(inner.iter) if inner is not None else '?'), construct='neighbour scan %s' % (src(inner.iter) if inner is not None else '?'))
+    if outer is not None:
+        skips = []
+        for x in ast.walk(outer):
+            if isinstance(x, (ast.Continue, ast.Break)):
+                near = next((a for a in ancestors(x) if isinstance(a, (ast.For, ast.While))), None)
+                if near is outer:
+                    skips.append(x)
+        rebuild = [lp for lp in outer.body if isinstance(lp, ast.For) and len(lp.body) == 2 and isinstance(lp.body[0], ast.Assign) and src(lp.body[0].targets[0]).startswith('nextGroup[')]
+        ctx.check('C05.FULL-SCAN', not skips and len(rebuild) == 1, f, skips[0] if skips else outer,
+                  'the first/next lists are rebuilt after every target (no early `continue` in the per-target loop)',
+                  msg='the per-target loop of groups.__init__ can skip the rebuild of the first/next lists (`%s` under `%s`): later targets then walk stale '
+                      'chains and isolated points keep the label -1' % ('continue' if skips else 'rebuild missing',
+                                                                        src(skips[0]._parent.test) if skips and hasattr(skips[0]._parent, 'test') else ''),
+                  construct='per-target loop skips list rebuild')
     le = [x for x in walk_local(f.node) if isinstance(x, ast.Compare) and src(x.left) == 'sep']
     ok = len(le) == 1 and isinstance(le[0].ops[0], ast.LtE) and src(le[0].comparators[0]) == f.params[2]
     ctx.check('C05.FULL-SCAN', ok, f, le[0] if le else f.node, 'two targets are friends when sep <= distance (separations do not exceed the linking length)',
